@@ -81,10 +81,19 @@ class Gen:
 
     def __init__(self, cfg):
         self.cfg = cfg
+        # labels: ordinary identifiers + a capitalised mnemonic of this ISA (a keyword when lower-cased)
+        kw = None
+        for c in cfg.instructions:
+            e = c.syntax.syntax[0] if c.syntax.syntax else None
+            if isinstance(e, str) and e.isidentifier() and len(e) > 1:
+                kw = e
+                break
+        self.labels = LABELS + ([kw.capitalize()] if kw else [])
 
-    def skeletons(self, cls, cap=48):
-        """all combinations of constructor options (as lists of chosen classes per cons operand, nested)"""
-        from itertools import product
+    def skeletons(self, cls, cap=48, _top=True):
+        """combinations of constructor options (as lists of chosen classes per cons operand, nested); when there
+        are more than `cap`, a stride sample of the full product so that every option still appears"""
+        from itertools import product, islice
         fa = cls.syntax.formal_arguments
         per = []
         for op in fa:
@@ -92,19 +101,29 @@ class Gen:
             if kd[0] == "cons":
                 alts = []
                 for c in kd[1]:
-                    for sk in self.skeletons(c, cap):
+                    for sk in self.skeletons(c, cap, False):
                         alts.append((c, sk))
                 per.append(alts)
             else:
                 per.append([None])
-        out = []
-        for combo in product(*per):
-            out.append(list(combo))
-            if len(out) >= cap:
+        full = [list(c) for c in islice(product(*per), 4000)]
+        if len(full) <= cap:
+            return full
+        n = len(full)
+        stride = max(1, n // cap)
+        while n % stride == 0 and stride > 1 and stride < n:      # a stride that walks through all residues
+            stride += 1
+        out, seen, i = [], set(), 0
+        while len(out) < cap:
+            if i % n not in seen:
+                seen.add(i % n)
+                out.append(full[i % n])
+            i += stride
+            if len(seen) == n:
                 break
         return out
 
-    def value(self, op, rng, small, j, pos):
+    def value(self, op, rng, small, j, pos, salt=0):
         from ppci.arch.registers import Register
         kd = T.operand_kind(op)
         if kd[0] == "reg":
@@ -112,10 +131,10 @@ class Gen:
             return regs[(j + 3 * pos) % len(regs)] if j is not None else rng.choice(regs)
         if kd[0] == "int":
             pool = SMALL_INTS if small else INTS
-            return pool[(j * 7 + 5 * pos) % len(pool)] if j is not None else (
+            return pool[(j * 7 + 5 * pos + salt) % len(pool)] if j is not None else (
                 rng.choice(pool) if rng.random() < 0.6 else rng.randint(-70000, 70000) if not small else rng.randint(0, 300))
         if kd[0] == "str":
-            return LABELS[(j + pos) % len(LABELS)] if j is not None else rng.choice(LABELS)
+            return self.labels[(j + pos) % len(self.labels)] if j is not None else rng.choice(self.labels)
         if kd[0] == "other":
             k = op._cls
             from ppci.arch.arm.registers import ArmRegister
@@ -128,16 +147,16 @@ class Gen:
             return k(chosen)
         raise NotImplementedError(str(kd))
 
-    def spec(self, cls, skel, rng, small, j, pos0=0):
+    def spec(self, cls, skel, rng, small, j, pos0=0, salt=0):
         args = []
         pos = pos0
         for op, sk in zip(cls.syntax.formal_arguments, skel):
             if sk is None:
-                args.append(self.value(op, rng, small, j, pos))
+                args.append(self.value(op, rng, small, j, pos, salt))
                 pos += 1
             else:
                 c, sub = sk
-                s = self.spec(c, sub, rng, small, j, pos)
+                s = self.spec(c, sub, rng, small, j, pos, salt)
                 pos += max(1, len(s.leaf_values()))
                 args.append(s)
         return Spec(cls, args)
